@@ -9,6 +9,7 @@ package main
 import (
 	"fmt"
 	"math"
+	"strconv"
 
 	"github.com/golang/geo/r3"
 	"github.com/golang/geo/s1"
@@ -53,7 +54,11 @@ var north = s2.Point{Vector: r3.Vector{X: 0, Y: 0, Z: 1}}
 var south = s2.Point{Vector: r3.Vector{X: 0, Y: 0, Z: -1}}
 
 func run(c *vkit.Collector, rng *vkit.Rng, budget int) {
+	// vkit.NewRng(seed) starts seed n+1 exactly one draw after seed n (same splitmix sequence), so
+	// consecutive seeds produce nearly identical runs; re-seed from a mixed value.
+	rng = vkit.NewRng(rng.U64() ^ 0xC10C10C10)
 	g := &gen{rng: rng, c: c}
+	runCorpus(c, g)
 	runBounderTraces(c, g, budget)
 	runLeaves(c, g, budget)
 	runLoops(c, g, budget)
@@ -88,6 +93,59 @@ func chainJSON(ps []s2.Point) []string {
 	return out
 }
 
+func hx(s string) float64 {
+	f, err := strconv.ParseFloat(s, 64)
+	if err != nil {
+		panic(err)
+	}
+	return f
+}
+
+// runCorpus: fixed regression inputs (the findings recorded in KNOWN_FINDINGS.jsonl), run first.
+func runCorpus(c *vkit.Collector, g *gen) {
+	// nearly antipodal unit vertices on a near-polar great circle: math.Asin(>1) = NaN
+	a := raw(hx("0x1.56e35039ce7a2p-02"), hx("-0x1.92c76039a2546p-03"), hx("0x1.d7d138f73c035p-01"))
+	b := raw(hx("-0x1.56e35063cd04ep-02"), hx("0x1.92c7606af6a04p-03"), hx("-0x1.d7d138ecf9065p-01"))
+	c.Class("corpus")
+	rb := bounderTrace(c, "corpus:nan", []s2.Point{a, b})
+	for _, p := range []s2.Point{a, b} {
+		if !rb.ContainsLatLng(s2.LatLngFromPoint(p)) {
+			violate(c, "RectBounder.AddPoint.NaN", "RectBound of the chain misses its own vertices (NaN latitude bound)", map[string]interface{}{"chain": chainJSON([]s2.Point{a, b}), "rect": rb.String()})
+		}
+	}
+	// the same edge in a valid loop: the loop's bound is NaN and ContainsPoint rejects everything
+	third := s2.Point{Vector: a.Cross(r3.Vector{X: 0, Y: 0, Z: 1}).Normalize()}
+	l := s2.LoopFromPoints([]s2.Point{a, third, b})
+	if l.Validate() == nil {
+		inside := 0
+		probes := []s2.Point{P(1, 2, -3), P(-1, 0.5, -0.2), south, P(0.3, -1, 0.1)}
+		for _, q := range probes {
+			// exact containment without the bound shortcut: q is inside the CCW side of all three edges
+			// of the complement triangle iff it is outside the small triangle (a,b,third)
+			if l.ContainsPoint(q) {
+				inside++
+			}
+		}
+		if rectHasNaN(l.RectBound()) && inside == 0 && l.Area() > 6 {
+			violate(c, "RectBounder.AddPoint.NaN", fmt.Sprintf("valid loop of area %.3f has a NaN bound and ContainsPoint is false for every probe", l.Area()), map[string]interface{}{"loop": chainJSON(l.Vertices()), "bound": l.RectBound().String()})
+		}
+	}
+	// latitude budget: a 172 degree edge exactly through the north pole
+	pl := s2.Polyline{raw(hx("0x1.7c1209acf38a9p-01"), 0, hx("0x1.570f7711eb685p-01")), raw(hx("-0x1.a710e4d56615cp-01"), 0, hx("-0x1.205f9153a4d1p-01"))}
+	if onEdgeExact(pl[0], pl[1], north) {
+		checkContained(c, "Polyline", boundsOf{pl.RectBound(), pl.CapBound(), pl.CellUnionBound()}, north, map[string]interface{}{"class": "corpus", "polyline": chainJSON(pl)})
+	}
+	// Cap.RectBound: cap of radius just under pi/2 centred on the equator
+	cp := s2.VerifC10CapFromChord(raw(0, 1, 0), 1.999999999771825)
+	searchCapPoint(c, cp, raw(hx("0x1.f30dcfcff036cp-01"), hx("0x1.f5c311a626331p-34"), hx("-0x1.c9a19f944e524p-03")))
+	// Cell.RectBound for a face cell
+	cell := s2.CellFromCellID(s2.CellIDFromFace(1))
+	q := raw(hx("0x1.279a74590331dp-01"), hx("0x1.279a74590331cp-01"), hx("-0x1.279a74590331dp-01"))
+	if cell.ContainsPoint(q) {
+		checkContained(c, "Cell", boundsFor(cell), q, map[string]interface{}{"cell": "face 1", "level": 0})
+	}
+}
+
 func runBounderTraces(c *vkit.Collector, g *gen, budget int) {
 	n := 260 * budget
 	for k := 0; k < n; k++ {
@@ -100,6 +158,9 @@ func runBounderTraces(c *vkit.Collector, g *gen, budget int) {
 		}
 		// [S] every vertex of the chain is inside the final bound (computed lat/lng)
 		for _, p := range chain {
+			if rectHasNaN(rb) {
+				break // reported as RectBounder.AddPoint.NaN by bounderTrace
+			}
 			if !rb.ContainsLatLng(s2.LatLngFromPoint(p)) && s2.LatLngFromPoint(p).IsValid() {
 				violate(c, "RectBounder.vertex", "RectBound misses a vertex of the chain", map[string]interface{}{"chain": chainJSON(chain), "p": chainJSON([]s2.Point{p})})
 			}
